@@ -25,21 +25,28 @@
      to one constant per track; RTP time stamps = time stamp at the clock rate
      within one tick; every ADTS header agrees with the AudioSpecificConfig.
    PROVED: per frame (c06_video_nals, c06_video_frame_ts, c06_video_message,
-     c06_adts_frames, c06_rtp_video / _aac / _raw) and over whole message
-     sequences with ANY observer (c06_stream_chains, c06_ts_timestamps,
-     c06_audio_frames, c06_patpmt_first, c06_ts_stream, c06_hls_concat,
-     c06_hls_group, c06_httpts_join, c06_observer_view, c06_rtsp_sdp_first).
-   MISSING LINKS: (1) the decomposition of each demultiplexed access unit of
-     c06_ts_stream into the published units is proved per frame
-     (c06_video_frame_ts / c06_video_message, c06_audio_frames + c06_audio_pes)
-     and not restated as one formula over the whole stream; (2) c06_hls_group is
-     about the model of the group's wiring (RemuxGroup.v, compared with the
-     real logic.Group by the c06.e2e op), the HTTP-TS subscriber part of that
-     model is compared, not specified; (3) the join-point
-     clause for HTTP-TS / RTSP consumers rests on C01/C02's fan-out theorems at
-     unit level and is not re-proved here on bytes; (4) the RTSP analysis phase
-     (which message triggers the SDP) is modelled and compared, the theorems
-     speak about the steady state. *)
+     c06_adts_frames, c06_rtp_video / _aac / _raw); over whole message sequences
+     with ANY observer (c06_stream_chains, c06_ts_timestamps, c06_audio_frames,
+     c06_patpmt_first, c06_ts_late_track_announced, c06_ts_stream,
+     c06_observer_view, c06_rtsp_sdp_first) and as ONE formula per track
+     (c06_ts_whole_stream: the demultiplexed stream = the frames of the video
+     walk / of a partition of the AAC frames over the published messages);
+     HLS inside the group at EVERY instant (c06_hls_group,
+     c06_hls_no_loss_every_instant, c06_hls_c10_every_instant: C10's invariant
+     and trace theorems lifted to the re-entrant wiring); JOIN POINTS ON BYTES through the fan-out model the harness runs
+     (c06_httpts_any_join(_waiting): PAT/PMT in force, cached GOPs, then every
+     frame - consecutive frames of the publication from a boundary on, which
+     demultiplex per track to the remuxer's frames; c06_rtsp_any_join(_gate):
+     the SDP in force, then the remuxer's packets from PLAY / from the first
+     GOP-start packet on).
+   WHAT REMAINS OPEN: (1) an RTSP consumer's packets are tied to the published
+     units per message (c06_rtp_video / _aac / _raw) and to a tail of the
+     remuxer's packet stream (c06_rtsp_any_join), not restated as one formula
+     over the stream; (2) the RTSP analysis phase (which message triggers the
+     SDP) is modelled and compared, the theorems speak about the steady state;
+     a sequence header after it is the listed finding
+     C06-rtsp-late-sequence-header; (3) C10's c10_listed_segments_stay is not
+     lifted to the re-entrant wiring (the chain it needs is: RemuxHlsRunProofs). *)
 From Coq Require Import List NArith ZArith Bool Lia.
 From Lal Require Import Common.LBytes Common.Res Group.GroupMsg
   Codec.CodecBits Codec.CodecAac Codec.CodecAacProofs Codec.CodecAvcSeqHeader Codec.CodecNalFraming Codec.CodecNalFramingProofs
@@ -216,64 +223,134 @@ Proof.
 Qed.
 Print Assumptions c06_stream_chains.
 
-(* time stamps: with e0 the first frame of a track, every frame e of the track
-   has DTS = dts0(e) - dts0(e0) when dts0(e) >= dts0(e0) - one constant per
-   track - and PTS = DTS + 90 * CTS (uint64); dts0 = 90 * RTMP time stamp
-   (c06_video_message, c06_audio_frames).  C09 adds 63000 modulo 2^33. *)
+(* time stamps: with e0 the first frame of a track, EVERY frame e of the track
+   has DTS = dts0(e) - dts0(e0) on the 33-bit clock of MPEG-TS - one constant
+   per track, also for a time stamp below the first one (clock restart of the
+   publisher, wrap of the 32-bit RTMP time stamp) - plainly dts0(e) - dts0(e0)
+   when dts0(e) >= dts0(e0), and PTS = DTS + 90 * CTS (uint64); dts0 = 90 * RTMP
+   time stamp (c06_video_message, c06_audio_frames).  C09 adds 63000 modulo 2^33. *)
 Theorem c06_ts_timestamps : forall O (dec : O -> tsev -> bool) (app : O -> tsev -> list tsev -> O) (pp : O -> bytes -> O)
     acts o x' o' outs audio e0 rest e,
   run_actions O dec app pp remuxer_init o acts = (x', o', outs) ->
   track_evs audio (ts_events outs) = e0 :: rest -> te_dts0 e0 <> max_u64 -> In e (e0 :: rest) ->
-  te_dts0 e0 <= te_dts0 e ->
-  f_dts (te_frame e) = te_dts0 e - te_dts0 e0
+  (f_dts (te_frame e) + te_dts0 e0) mod 8589934592 = te_dts0 e mod 8589934592
+  /\ (te_dts0 e0 <= te_dts0 e -> f_dts (te_frame e) = te_dts0 e - te_dts0 e0)
   /\ f_pts (te_frame e) = u64 (f_dts (te_frame e) + 90 * te_cts e).
 Proof.
-  intros O dec app pp acts o x' o' outs audio e0 rest e H Ht Hb Hin Hle.
+  intros O dec app pp acts o x' o' outs audio e0 rest e H Ht Hb Hin.
   destruct (run_invariant O dec app pp acts o x' o' outs H) as (Hc & _).
-  destruct (track_times audio _ _ e0 rest e Hc Ht Hb Hin) as (Hd & Hp). split; [|exact Hp].
-  rewrite Hd. destruct (te_dts0 e <? te_dts0 e0) eqn:E; [apply N.ltb_lt in E; lia|reflexivity].
+  destruct (track_times audio _ _ e0 rest e Hc Ht Hb Hin) as (Hd & Hp). rewrite Hd.
+  split; [apply rebase_dts_mod|]. split; [apply rebase_dts_ge|]. now rewrite <- Hd.
 Qed.
 Print Assumptions c06_ts_timestamps.
 
-(* F-23: the hypothesis dts0(e0) <= dts0(e) cannot be dropped.  A frame stamped
-   below the first frame of its track keeps its un-rebased DTS: 1000 ms then
-   500 ms come out as DTS 0 and 45000 - the difference is +45000 ticks instead
-   of -45000 (no constant of the track fits both). *)
+(* F-23 (fixed in lal): the pinned filter left a time stamp below the base as it
+   was: base 90000 (1000 ms), a frame at 45000 (500 ms) stayed 45000 where the
+   clock constant asks for 45000 - 90000 mod 2^33 *)
+Theorem c06_ts_timestamps_below_base_pinned_refuted :
+  exists b d, snd (rebase_pinned b d) = d /\ d < b
+    /\ (snd (rebase_pinned b d) + b) mod 8589934592 <> d mod 8589934592.
+Proof. exact rebase_pinned_refuted. Qed.
+Print Assumptions c06_ts_timestamps_below_base_pinned_refuted.
+
+(* sample messages used by the examples below *)
 Definition f23_vsh : rmsg := mk_rmsg 9 1000 [23;0;0;0;0; 1;100;0;31;255; 225;0;4; 103;100;0;31; 1;0;2; 104;238].
 Definition f23_ash : rmsg := mk_rmsg 8 1000 [175; 0; 18; 16].
-Definition f23_v1 : rmsg := mk_rmsg 9 1000 [23;1;0;0;0; 0;0;0;2; 101;136].
-Definition f23_v2 : rmsg := mk_rmsg 9 500 [39;1;0;0;0; 0;0;0;2; 65;154].
-Theorem c06_ts_timestamps_below_base_refuted :
-  exists e1 e2,
-    track_evs false (ts_events (run_scripted [] [AMsg f23_vsh; AMsg f23_ash; AMsg f23_v1; AMsg f23_v2])) = [e1; e2]
-    /\ te_dts0 e1 = 90000 /\ te_dts0 e2 = 45000
-    /\ f_dts (te_frame e1) = 0 /\ f_dts (te_frame e2) = 45000
-    /\ (f_dts (te_frame e2) + 8589934592 - f_dts (te_frame e1)) mod 8589934592
-       <> (te_dts0 e2 + 8589934592 - te_dts0 e1) mod 8589934592.
-Proof. eexists. eexists. split; [vm_compute; reflexivity|]. vm_compute. repeat split; congruence. Qed.
-Print Assumptions c06_ts_timestamps_below_base_refuted.
 
-(* PAT / PMT first and once: the output of any run is empty (the probe is still
+(* PAT / PMT first: the output of any run is empty (the probe is still
    collecting) or starts with PackPat ++ PackPmt(v, a) - which C09 proved to be
-   two conforming sections announcing exactly the codecs v, a - followed by TS
-   frames only *)
+   two conforming sections announcing exactly the codecs v, a.  What follows
+   are frames and, when a track starts after the probe window, a new version of
+   the PMT that announces it (lal fix of C06-ts-late-track-not-in-pmt): again
+   PackPat followed by a conforming PMT section, for every codec pair and
+   version *)
 Theorem c06_patpmt_first : forall O (dec : O -> tsev -> bool) (app : O -> tsev -> list tsev -> O) (pp : O -> bytes -> O)
     acts o x' o' outs,
   run_actions O dec app pp remuxer_init o acts = (x', o', outs) ->
   outs = [] \/
-  exists v a rest, outs = OutPatPmt (pack_pat ++ pack_pmt v a) :: rest /\ Forall is_ts rest
+  exists v a rest, outs = OutPatPmt (pack_pat ++ pack_pmt v a) :: rest /\ Forall ts_or_pmt rest
     /\ parse_pat_packet pack_pat = Some {| pat_ts_pid := 0; pat_tsid := 1; pat_programs := [(1, 4097)] |}
     /\ parse_pmt_packet (pack_pmt v a)
-       = Some {| pmt_ts_pid := 4097; pmt_program := 1; pmt_pcr_pid := 256; pmt_streams_of := expected_streams v a |}.
+       = Some {| pmt_ts_pid := 4097; pmt_program := 1; pmt_pcr_pid := 256; pmt_streams_of := expected_streams v a |}
+    /\ (forall v' a' k, parse_pmt_packet (pack_pmt_ver v' a' k)
+          = Some {| pmt_ts_pid := 4097; pmt_program := 1; pmt_pcr_pid := 256; pmt_streams_of := expected_streams v' a' |}).
 Proof.
   intros O dec app pp acts o x' o' outs H.
   destruct (run_invariant O dec app pp acts o x' o' outs H) as (_ & _ & Hf).
   destruct (fq_done (x_filter x')).
   - right. destruct Hf as (v & a & rest & -> & Hr). exists v, a, rest.
-    split; [reflexivity|]. split; [exact Hr|]. split; [exact (proj2 pack_pat_ok)|exact (proj2 (pack_pmt_ok v a))].
+    split; [reflexivity|]. split; [exact Hr|]. split; [exact (proj2 pack_pat_ok)|].
+    split; [exact (proj2 (pack_pmt_ok v a))|]. intros v' a' k. exact (proj2 (pack_pmt_ver_ok v' a' k)).
   - left. exact (proj1 Hf).
 Qed.
 Print Assumptions c06_patpmt_first.
+
+(* the late track: after the probe, the first AAC / Opus message of a stream
+   whose audio codec is still unknown (resp. the first AVC / HEVC message when
+   the video codec is unknown) is preceded by PAT + a PMT of the NEXT version
+   that announces it on PID 0x101 (0x100); the codec is then known, so it is
+   announced once *)
+Theorem c06_ts_late_track_announced : forall O (dec : O -> tsev -> bool) (app : O -> tsev -> list tsev -> O) (pp : O -> bytes -> O)
+    x o m,
+  fq_done (x_filter x) = true ->
+  (rm_type m = type_audio /\ fq_acodec (x_filter x) = (-1)%Z /\ rm_payload m <> []
+   /\ (pb m 0 / 16 = 10 \/ pb m 0 / 16 = 13)
+   \/ rm_type m = type_video /\ fq_vcodec (x_filter x) = (-1)%Z
+      /\ (video_codec_id m = 7 \/ video_codec_id m = 12)) ->
+  exists x' o' rest v a,
+    feed_rtmp_message O dec app pp x o m
+    = (x', o', OutPatPmt (pack_pat ++ pack_pmt_ver v a (u8 (fq_version (x_filter x) + 1))) :: rest)
+    /\ Forall is_ts rest
+    /\ fq_vcodec (x_filter x') = v /\ fq_acodec (x_filter x') = a
+    /\ (rm_type m = type_audio -> a = Z.of_N (pb m 0 / 16) /\ v = fq_vcodec (x_filter x)
+          /\ In 257 (map es_pid (expected_streams v a)))
+    /\ (rm_type m = type_video -> v = Z.of_N (video_codec_id m) /\ a = fq_acodec (x_filter x)
+          /\ In 256 (map es_pid (expected_streams v a))).
+Proof.
+  intros O dec app pp x o m Hd Hc. unfold feed_rtmp_message. rewrite Hd. unfold late_track.
+  destruct Hc as [(Hty & Ha & Hne & Hco)|(Hty & Hv & Hco)].
+  - rewrite Hty, Ha. change (type_audio =? type_audio) with true. cbv iota.
+    replace (lenN (rm_payload m) =? 0) with false
+      by (destruct (rm_payload m); [congruence|reflexivity]).
+    change (negb (-1 =? -1)%Z) with false. cbn [orb].
+    replace ((Z.of_N (pb m 0 / 16) =? 10)%Z || (Z.of_N (pb m 0 / 16) =? 13)%Z) with true
+      by (destruct Hco as [-> | ->]; reflexivity).
+    cbn [fq_data fq_acodec fq_vcodec fq_done fq_version].
+    cbv beta iota zeta.
+    match goal with |- context [on_pop ?a ?b ?c ?d ?e ?g] => destruct (on_pop a b c d e g) as [[s1 o1] evs] end.
+    eexists _, _, _, _, _. split; [reflexivity|]. split; [apply is_ts_map|]. cbn [x_filter fq_vcodec fq_acodec].
+    split; [reflexivity|]. split; [reflexivity|]. split.
+    + intros _. split; [reflexivity|]. split; [reflexivity|]. unfold expected_streams.
+      destruct Hco as [-> | ->]; cbn [Z.of_N Z.eqb Pos.eqb];
+        destruct (Z.eqb _ 7); [| destruct (Z.eqb _ 12) | | destruct (Z.eqb _ 12)]; cbn; tauto.
+    + intros H. discriminate H.
+  - rewrite Hty, Hv. change (type_video =? type_audio) with false. change (type_video =? type_video) with true. cbv iota.
+    change (negb (-1 =? -1)%Z) with false. cbv iota.
+    replace ((Z.of_N (video_codec_id m) =? 7)%Z || (Z.of_N (video_codec_id m) =? 12)%Z) with true
+      by (destruct Hco as [-> | ->]; reflexivity).
+    cbn [fq_data fq_acodec fq_vcodec fq_done fq_version].
+    cbv beta iota zeta.
+    match goal with |- context [on_pop ?a ?b ?c ?d ?e ?g] => destruct (on_pop a b c d e g) as [[s1 o1] evs] end.
+    eexists _, _, _, _, _. split; [reflexivity|]. split; [apply is_ts_map|]. cbn [x_filter fq_vcodec fq_acodec].
+    split; [reflexivity|]. split; [reflexivity|]. split.
+    + intros H. discriminate H.
+    + intros _. split; [reflexivity|]. split; [reflexivity|]. unfold expected_streams.
+      destruct Hco as [-> | ->]; cbn; tauto.
+Qed.
+Print Assumptions c06_ts_late_track_announced.
+
+(* ... where the pinned tree sent only the PMT of the probe window, which names
+   no audio (video) stream for an unknown codec id: the late track stayed on a
+   PID no PMT announced *)
+Theorem c06_ts_late_track_pinned_refuted :
+  (forall v, ~ In 257 (map es_pid (expected_streams v (-1)))) /\
+  (forall a, ~ In 256 (map es_pid (expected_streams (-1) a))).
+Proof.
+  split; intro z; unfold expected_streams.
+  - destruct (Z.eqb z 7); [|destruct (Z.eqb z 12)]; cbn; intuition discriminate.
+  - destruct (Z.eqb z 10); [|destruct (Z.eqb z 13)]; cbn; intuition discriminate.
+Qed.
+Print Assumptions c06_ts_late_track_pinned_refuted.
 
 (* the transport stream as a whole: all packets of all frames of a run, audio
    and video interleaved in whatever way; the packets of one PID through C09's
@@ -419,7 +496,7 @@ Print Assumptions c06_observer_view.
    units without access unit delimiters; payloads <= 1200 bytes; sequence
    numbers consecutive from the packer's; marker on the last packet only; RTP
    time stamp = floor(ms * 90000 / 1000) mod 2^32; payload type of the SDP *)
-Theorem c06_rtp_video : forall opus_fixed s m c seq nals,
+Theorem c06_rtp_video : forall rtsp_fixed s m c seq nals,
   rm_type m = type_video -> q_sps s <> None ->
   (q_vpacker s = Some (c, seq) \/ (q_vpacker s = None /\ seq = 0 /\ c = if (q_vpt s =? pt_avc)%Z then Avc else Hevc)) ->
   seq < 65536 -> enhanced_too_short m = false ->
@@ -427,7 +504,7 @@ Theorem c06_rtp_video : forall opus_fixed s m c seq nals,
                      then skipn (enhanced_nalu_index m) (rm_payload m) else skipn 5 (rm_payload m)) = (nals, None) ->
   Forall (fun u => is_aud c u = false -> rtp_unit_ok c u) nals ->
   exists s' pk,
-    remux opus_fixed s m = (s', map (RRtp false) pk)
+    remux rtsp_fixed s m = (s', map (RRtp false) pk)
     /\ rfc_depack c (map rp_payload pk) = Some (filter (not_aud c) nals)
     /\ Forall (fun p => lenN (rp_payload p) <= rtp_max_payload) pk
     /\ seq_chain seq pk /\ marks_ok pk
@@ -441,11 +518,11 @@ Theorem c06_rtp_not_aud : forall c u, nth 0 u 0 < 256 -> not_aud c u = rtp_paylo
 Proof. exact not_aud_is_rtp_payload. Qed.
 Print Assumptions c06_rtp_not_aud.
 
-Theorem c06_rtp_aac : forall opus_fixed s m rate seq,
+Theorem c06_rtp_aac : forall rtsp_fixed s m rate seq,
   rm_type m = type_audio -> audio_codec_id m = sound_aac ->
   q_apacker s = Some (KAac, rate, seq) -> lenN (skipn 2 (rm_payload m)) < 8192 ->
   exists s' p,
-    remux opus_fixed s m = (s', [RRtp true p])
+    remux rtsp_fixed s m = (s', [RRtp true p])
     /\ rfc3640_depack [rp_payload p] = Some [skipn 2 (rm_payload m)]
     /\ rp_seq p = seq /\ rp_mark p = 1 /\ rp_pt p = u8z (q_apt s)
     /\ rp_ts p = (rm_ts m * Z.to_N rate / 1000) mod 4294967296
@@ -453,12 +530,12 @@ Theorem c06_rtp_aac : forall opus_fixed s m rate seq,
 Proof. exact remux_aac. Qed.
 Print Assumptions c06_rtp_aac.
 
-Theorem c06_rtp_raw : forall opus_fixed s m k rate seq,
+Theorem c06_rtp_raw : forall rtsp_fixed s m k rate seq,
   rm_type m = type_audio ->
   (audio_codec_id m = sound_g711a \/ audio_codec_id m = sound_g711u \/ audio_codec_id m = sound_opus) ->
   q_apacker s = Some (k, rate, seq) -> k <> KAac ->
   exists s' p,
-    remux opus_fixed s m = (s', [RRtp true p])
+    remux rtsp_fixed s m = (s', [RRtp true p])
     /\ rp_payload p = skipn 1 (rm_payload m)
     /\ rp_seq p = seq /\ rp_mark p = 1 /\ rp_pt p = u8z (q_apt s)
     /\ rp_ts p = (rm_ts m * Z.to_N rate / 1000) mod 4294967296.
@@ -468,15 +545,45 @@ Print Assumptions c06_rtp_raw.
 (* the analysis phase: whatever the input (any order of headers, metadata,
    frames), the remuxer emits nothing at all, or the SDP exactly once followed
    by RTP packets only *)
-Theorem c06_rtsp_sdp_first : forall b64 hex tool opus_fixed l,
-  let outs := run_rtsp_gen b64 hex tool opus_fixed l in
+Theorem c06_rtsp_sdp_first : forall b64 hex tool rtsp_fixed l,
+  let outs := run_rtsp_gen b64 hex tool rtsp_fixed l in
   outs = [] \/ exists r rest, outs = RSdp r :: rest /\ Forall is_rtp rest.
 Proof.
-  intros b64 hex tool opus_fixed l outs. subst outs. unfold run_rtsp_gen.
-  pose proof (rtsp_sdp_first b64 hex tool opus_fixed l r2r_init) as H. cbn [r2r_init q_done sdp_first] in H.
+  intros b64 hex tool rtsp_fixed l outs. subst outs. unfold run_rtsp_gen.
+  pose proof (rtsp_sdp_first b64 hex tool rtsp_fixed l r2r_init) as H. cbn [r2r_init q_done sdp_first] in H.
   destruct H as [[H _]|(r & rest & H & Hr & _)]; [now left|right; now exists r, rest].
 Qed.
 Print Assumptions c06_rtsp_sdp_first.
+
+(* an AVC sequence header with SEVERAL SPS / PPS (ISO 14496-15 allows up to 31 /
+   255) in the analysis phase: the first SPS and the first PPS become the
+   remuxer's parameter sets - sdp.Pack announces them (c19_sdp), the video
+   packer exists (c06_rtp_video applies) ... *)
+Theorem c06_rtsp_avc_several_parameter_sets : forall b64 hex tool s m sps spss pps ppss,
+  q_done s = false -> rm_type m = type_video -> (lenN (rm_payload m) <=? 5) = false ->
+  is_avc_key_seq_header m = true ->
+  avc_parse_seq_header_list (rm_payload m) = Ok (sps :: spss, pps :: ppss) -> sps <> [] -> pps <> [] ->
+  (forall a b, avc_parse_seq_header (rm_payload m) = Ok (a, b) -> a = sps /\ b = pps) ->
+  feed_rtmp_msg b64 hex tool true s (RMsg m)
+  = do_analyze b64 hex tool true (set_params s (q_vps s) (Some sps) (Some pps)).
+Proof. exact feed_avc_header_list. Qed.
+Print Assumptions c06_rtsp_avc_several_parameter_sets.
+
+(* ... where the pinned tree (avc.ParseSpsPpsFromSeqHeader only: "exactly one of
+   each") kept no parameter set at all: AAC header, a sequence header with two
+   SPS and two PPS, a key frame - the pinned model never leaves the analysis
+   phase (and after 16 messages sends an SDP without video), the current one
+   sends the SDP and the frame's packet *)
+Definition two_ps_vsh : rmsg :=
+  mk_rmsg 9 0 [23;0;0;0;0; 1;100;0;31;255; 226; 0;4; 103;100;0;31; 0;4; 103;77;64;30; 2; 0;2; 104;238; 0;2; 104;206].
+Definition two_ps_witness : list rin :=
+  [RMsg f23_ash; RMsg two_ps_vsh; RMsg (mk_rmsg 9 0 [23;1;0;0;0; 0;0;0;2; 101;136])].
+Theorem c06_rtsp_avc_several_parameter_sets_pinned_refuted :
+  run_rtsp_pinned (fun x => x) (fun x => x) [] two_ps_witness = []
+  /\ exists sdp p, run_rtsp (fun x => x) (fun x => x) [] two_ps_witness = [RSdp (Some sdp); RRtp false p]
+                   /\ rp_payload p = [101; 136].
+Proof. split; [vm_compute; reflexivity|]. eexists. eexists. split; vm_compute; reflexivity. Qed.
+Print Assumptions c06_rtsp_avc_several_parameter_sets_pinned_refuted.
 
 (* floor(ms * rate / 1000) is within one tick of the published time at the clock rate *)
 Theorem c06_rtp_tick : forall ms rate, rate <> 0 ->
@@ -520,3 +627,394 @@ Proof.
   - split; [vm_compute; reflexivity|]. exists 7%Z, 10%Z. eexists. eexists.
     split; [vm_compute; reflexivity|]. repeat split; vm_compute; reflexivity.
 Qed.
+
+(* ======================================================================== *)
+(* (7) JOIN POINTS ON BYTES, through the real fan-out.  Remux/RemuxFanout.v
+   turns one publication - the events of the end-to-end op c06.e2e: messages,
+   HTTP-TS subscribers and RTSP players joining anywhere - into what happens at
+   the group ([outs]: the callbacks of the two remuxers in the order
+   broadcastByRtmpMsg makes them), runs the fan-out model of C01 / C02
+   (Group/GroupFanout.v: HTTP-TS GOP cache, RtspConfig.OutWaitKeyFrameFlag) on
+   that history and reads every label a consumer was sent as the bytes it stands
+   for ([fo_items]).  That composition is what ./check C06 compares with
+   logic.Group byte for byte.  The theorems below are about it. *)
+From Lal Require Group.GroupFanout Group.GroupFanoutProofs Group.GroupFanoutRtspProofs
+  Remux.RemuxFanout Remux.RemuxFanoutTsProofs Remux.RemuxFanoutProofs Remux.RemuxFanoutRunProofs.
+Module GF := Lal.Group.GroupFanout.
+Module GP := Lal.Group.GroupFanoutProofs.
+Module GR := Lal.Group.GroupFanoutRtspProofs.
+Module RF := Lal.Remux.RemuxFanout.
+Module RFP := Lal.Remux.RemuxFanoutProofs.
+Module RFR := Lal.Remux.RemuxFanoutRunProofs.
+
+(* An HTTP-TS subscriber that joins at ANY point ([ob] before it, any later
+   events [o1] without a frame, then the frame [e], then [o2]; no cap on a
+   cached GOP), admitted at [e] because a GOP is cached or [e] is a boundary:
+   - BYTES: it is sent the PAT/PMT in force, the cached frames, then every
+     frame and every later PAT/PMT block in order;
+   - the frames it is sent ([L]) are consecutive frames of the publication up
+     to its end - none missing, none twice - and the first one is a boundary;
+   - a demultiplexer (C09's reference) recovers from them, per track, exactly
+     those frames of the remuxer: what c06_video_message / c06_audio_frames say
+     of each frame holds of the consumer's stream from its starting point on. *)
+Theorem c06_httpts_any_join : forall b64 hex tool hc rtsp hls evs g' outs cf ob id o1 e o2,
+  RF.fan_outs b64 hex tool hc rtsp hls evs = (g', outs) -> Forall msg_ok (RFR.fev_msgs evs) ->
+  GF.cf_ts_max cf = 0%nat ->
+  outs = RF.FoIn true :: (ob ++ RF.FoJoin GF.KTs id :: o1) ++ RF.FoTs e :: o2 ->
+  RFP.fo_ts_evs o1 = [] ->
+  existsb (fun x => GF.c_id x =? id) (GF.g_subs (GF.run cf (RF.fan_hist (RF.FoIn true :: ob)))) = false ->
+  let body := ob ++ RF.FoJoin GF.KTs id :: o1 in
+  (0 < RFP.cached_gops cf body)%nat \/ te_boundary e = true ->
+  let L := RFP.cache_evs cf body ++ RFP.fo_ts_evs (RF.FoTs e :: o2) in
+  exists c', GP.find_sub (GF.run cf (RF.fan_hist outs)) id = Some c' /\ GF.admitted c' = true /\
+    RF.fo_items outs (GF.c_out c')
+      = RFP.pat_in_force body ++ map (fun x => RF.ITs (ev_bytes x)) (RFP.cache_evs cf body) ++ RFP.ts_items (RF.FoTs e :: o2)
+    /\ (exists pre, RFP.fo_ts_evs outs = pre ++ L)
+    /\ (exists e0 rest, L = e0 :: rest /\ te_boundary e0 = true)
+    /\ forall audio : bool, exists cc,
+         demux_pid (if audio then pid_audio else pid_video) (ev_packets L)
+         = Some (expected_units cc (map te_frame (track_evs audio L))).
+Proof.
+  intros b64 hex tool hc rtsp hls evs g' outs cf ob id o1 e o2 Hrun Hm Hmax Hout Hq Hnew body Hadm L.
+  destruct (RFR.fan_outs_run b64 hex tool hc rtsp hls evs g' _ Hrun Hm) as (mid & x' & Hout2 & Hnin & Hinv & Hwf & _).
+  (* the shape of [outs]: o2 ends with the end of the input *)
+  assert (Hsplit : exists o2', o2 = o2' ++ [RF.FoIn false] /\ mid = body ++ RF.FoTs e :: o2').
+  { rewrite Hout in Hout2. injection Hout2 as Hout2. fold body in Hout2.
+    destruct (exists_last (l := o2)) as (o2' & last & ->).
+    { intro E. subst o2. assert (Hl : body ++ [RF.FoTs e] = mid ++ [RF.FoIn false]) by exact Hout2.
+      apply app_inj_tail in Hl. destruct Hl as [_ Hl]. discriminate. }
+    exists o2'. replace (body ++ RF.FoTs e :: o2' ++ [last]) with ((body ++ RF.FoTs e :: o2') ++ [last]) in Hout2
+      by (rewrite <- app_assoc; reflexivity).
+    apply app_inj_tail in Hout2. destruct Hout2 as [-> ->]. split; reflexivity. }
+  destruct Hsplit as (o2' & Ho2 & Hmid).
+  assert (Hbody : RFP.no_in_out body).
+  { unfold RFP.no_in_out in *. rewrite Hmid in Hnin. apply Forall_app in Hnin. exact (proj1 Hnin). }
+  assert (Hob : RFP.no_in_out ob /\ RFP.no_in_out o1).
+  { unfold RFP.no_in_out, body in *. apply Forall_app in Hbody. destruct Hbody as [A B]. inversion B; subst. now split. }
+  destruct Hob as [Hob Ho1].
+  destruct (RFP.httpts_join_items cf ob id o1 Hob Ho1 Hq Hnew e o2 Hadm) as (c' & Hf & _ & Ha & Hitems).
+  cbv zeta in Hf, Hitems. rewrite <- Hout in Hf, Hitems. fold body in Hitems.
+  exists c'. split; [exact Hf|]. split; [exact Ha|]. split; [exact Hitems|].
+  destruct (RFP.cache_evs_suffix cf body Hmax) as (pre & Hpre & Hhead & Hne).
+  assert (HL : RFP.fo_ts_evs outs = pre ++ L).
+  { rewrite Hout. fold body. unfold L.
+    change (RFP.fo_ts_evs (RF.FoIn true :: body ++ RF.FoTs e :: o2)) with (RFP.fo_ts_evs (body ++ RF.FoTs e :: o2)).
+    unfold RFP.fo_ts_evs at 1. rewrite RFP.tab_app. fold (RFP.fo_ts_evs body). fold (RFP.fo_ts_evs (RF.FoTs e :: o2)).
+    rewrite Hpre, <- app_assoc. reflexivity. }
+  split; [exists pre; exact HL|]. split.
+  - destruct Hhead as [Hnil|(e0 & rest & Hc & Hb)].
+    + destruct Hadm as [Hpos|Hb].
+      * exfalso. exact (Hne Hpos Hnil).
+      * unfold L. rewrite Hnil. cbn [app RFP.fo_ts_evs flat_map]. exists e, (RFP.fo_ts_evs o2). split; [reflexivity|exact Hb].
+    + unfold L. rewrite Hc. cbn [app]. exists e0, (rest ++ RFP.fo_ts_evs (RF.FoTs e :: o2)). split; [reflexivity|exact Hb].
+  - intro audio. destruct Hinv as (Hch & _). rewrite RFR.ts_events_outs in Hch.
+    assert (Hall : RFP.fo_ts_evs mid = pre ++ L).
+    { rewrite <- HL, Hout2. unfold RFP.fo_ts_evs. cbn [flat_map app]. rewrite RFP.tab_app. cbn [flat_map]. now rewrite !app_nil_r. }
+    destruct (RFR.suffix_demux _ _ pre L audio Hch Hwf Hall) as (cc & _ & Hd). exists cc. exact Hd.
+Qed.
+Print Assumptions c06_httpts_any_join.
+
+(* ... and when nothing is cached and the first frame after the join is no
+   boundary: the PAT/PMT in force, the PAT/PMT blocks that follow, and from the
+   first boundary frame [e3] on every frame - again consecutive frames of the
+   publication up to its end, starting at a boundary, demultiplexing per track
+   to the remuxer's frames *)
+Theorem c06_httpts_any_join_waiting : forall b64 hex tool hc rtsp hls evs g' outs cf ob id o1 e o2 e3 o3,
+  RF.fan_outs b64 hex tool hc rtsp hls evs = (g', outs) -> Forall msg_ok (RFR.fev_msgs evs) ->
+  outs = RF.FoIn true :: (ob ++ RF.FoJoin GF.KTs id :: o1) ++ RF.FoTs e :: o2 ++ RF.FoTs e3 :: o3 ->
+  RFP.fo_ts_evs o1 = [] ->
+  existsb (fun x => GF.c_id x =? id) (GF.g_subs (GF.run cf (RF.fan_hist (RF.FoIn true :: ob)))) = false ->
+  let body := ob ++ RF.FoJoin GF.KTs id :: o1 in
+  RFP.cached_gops cf body = 0%nat -> te_boundary e = false ->
+  Forall (fun x => te_boundary x = false) (RFP.fo_ts_evs o2) -> te_boundary e3 = true ->
+  let L := RFP.fo_ts_evs (RF.FoTs e3 :: o3) in
+  exists c', GP.find_sub (GF.run cf (RF.fan_hist outs)) id = Some c' /\ GF.admitted c' = true /\
+    RF.fo_items outs (GF.c_out c') = RFP.pat_in_force body ++ RFP.pat_items o2 ++ RFP.ts_items (RF.FoTs e3 :: o3)
+    /\ (exists pre, RFP.fo_ts_evs outs = pre ++ L)
+    /\ forall audio : bool, exists cc,
+         demux_pid (if audio then pid_audio else pid_video) (ev_packets L)
+         = Some (expected_units cc (map te_frame (track_evs audio L))).
+Proof.
+  intros b64 hex tool hc rtsp hls evs g' outs cf ob id o1 e o2 e3 o3 Hrun Hm Hout Hq Hnew body Hcnt He Hq2 He3 L.
+  destruct (RFR.fan_outs_run b64 hex tool hc rtsp hls evs g' _ Hrun Hm) as (mid & x' & Hout2 & Hnin & Hinv & Hwf & _).
+  assert (Hsplit : exists o3', o3 = o3' ++ [RF.FoIn false] /\ mid = body ++ RF.FoTs e :: o2 ++ RF.FoTs e3 :: o3').
+  { rewrite Hout in Hout2. injection Hout2 as Hout2. fold body in Hout2.
+    destruct (exists_last (l := o3)) as (o3' & last & ->).
+    { intro E. subst o3. assert (Hl : (body ++ RF.FoTs e :: o2) ++ [RF.FoTs e3] = mid ++ [RF.FoIn false]) by (rewrite <- app_assoc; exact Hout2).
+      apply app_inj_tail in Hl. destruct Hl as [_ Hl]. discriminate. }
+    exists o3'.
+    assert (E : body ++ RF.FoTs e :: o2 ++ RF.FoTs e3 :: o3' ++ [last] = (body ++ RF.FoTs e :: o2 ++ RF.FoTs e3 :: o3') ++ [last]).
+    { symmetry. rewrite <- app_assoc. cbn [app]. rewrite <- app_assoc. reflexivity. }
+    rewrite E in Hout2.
+    apply app_inj_tail in Hout2. destruct Hout2 as [-> ->]. split; reflexivity. }
+  destruct Hsplit as (o3' & Ho3 & Hmid).
+  assert (Hbody : RFP.no_in_out body).
+  { unfold RFP.no_in_out in *. rewrite Hmid in Hnin. apply Forall_app in Hnin. exact (proj1 Hnin). }
+  assert (Hob : RFP.no_in_out ob /\ RFP.no_in_out o1).
+  { unfold RFP.no_in_out, body in *. apply Forall_app in Hbody. destruct Hbody as [A B]. inversion B; subst. now split. }
+  destruct Hob as [Hob Ho1].
+  destruct (RFP.httpts_join_items_waiting cf ob id o1 Hob Ho1 Hq Hnew e o2 e3 o3 Hcnt He Hq2 He3) as (c' & Hf & _ & Ha & Hitems).
+  cbv zeta in Hf, Hitems. rewrite <- Hout in Hf, Hitems. fold body in Hitems.
+  exists c'. split; [exact Hf|]. split; [exact Ha|]. split; [exact Hitems|].
+  assert (HL : RFP.fo_ts_evs outs = (RFP.fo_ts_evs (body ++ RF.FoTs e :: o2)) ++ L).
+  { rewrite Hout. fold body. unfold L.
+    replace (RF.FoIn true :: body ++ RF.FoTs e :: o2 ++ RF.FoTs e3 :: o3) with ((RF.FoIn true :: body ++ RF.FoTs e :: o2) ++ RF.FoTs e3 :: o3)
+      by (cbn [app]; rewrite <- app_assoc; reflexivity).
+    unfold RFP.fo_ts_evs at 1. rewrite RFP.tab_app. reflexivity. }
+  split; [eexists; exact HL|].
+  intro audio. destruct Hinv as (Hch & _). rewrite RFR.ts_events_outs in Hch.
+  assert (Hall : RFP.fo_ts_evs mid = RFP.fo_ts_evs (body ++ RF.FoTs e :: o2) ++ L).
+  { rewrite <- HL, Hout2. unfold RFP.fo_ts_evs. cbn [flat_map app]. rewrite RFP.tab_app. cbn [flat_map]. now rewrite !app_nil_r. }
+  destruct (RFR.suffix_demux _ _ _ L audio Hch Hwf Hall) as (cc & _ & Hd). exists cc. exact Hd.
+Qed.
+Print Assumptions c06_httpts_any_join_waiting.
+
+(* An RTSP player that joins at ANY point (DESCRIBE is answered once the
+   remuxer has announced its SDP; SETUP; PLAY), without OutWaitKeyFrameFlag or
+   while the group knows no video codec: it is sent the SDP in force and then
+   every packet the remuxer hands the group from PLAY on - a tail of the
+   remuxer's packet stream over the published messages ([run_rtsp]: what
+   c06_rtp_video / c06_rtp_aac / c06_rtp_raw say of each message's packets
+   holds of the player's stream from its starting point on). *)
+Theorem c06_rtsp_any_join : forall b64 hex tool hc hls evs g' outs cf ob id o1,
+  RF.fan_outs b64 hex tool hc true hls evs = (g', outs) -> Forall msg_ok (RFR.fev_msgs evs) ->
+  outs = (RF.FoIn true :: ob ++ [RF.FoJoin GF.KRtsp id; RF.FoPlay id]) ++ o1 ->
+  existsb (fun x => GF.c_id x =? id) (GF.g_subs (GF.run cf (RF.fan_hist (RF.FoIn true :: ob)))) = false ->
+  GF.g_sdp (GF.run cf (RF.fan_hist (RF.FoIn true :: ob))) <> None ->
+  GF.cf_rtsp_wait cf && GF.g_video_known (GF.run cf (RF.fan_hist (RF.FoIn true :: ob))) = false ->
+  exists c', GP.find_sub (GF.run cf (RF.fan_hist outs)) id = Some c' /\
+    RF.fo_items outs (GF.c_out c') = RFP.sdp_in_force ob ++ RFP.rtp_items o1
+    /\ exists pre, RFR.rout_rtps (run_rtsp b64 hex tool (RFR.fev_rins evs)) = pre ++ RFR.fo_rtps o1.
+Proof.
+  intros b64 hex tool hc hls evs g' outs cf ob id o1 Hrun Hm Hout Hnew Hsdp Hw.
+  destruct (RFR.fan_outs_run b64 hex tool hc true hls evs g' outs Hrun Hm) as (mid & x' & Hout2 & Hnin & _ & _ & Hr).
+  specialize (Hr eq_refl).
+  assert (Hsplit : exists o1', o1 = o1' ++ [RF.FoIn false] /\ mid = (ob ++ [RF.FoJoin GF.KRtsp id; RF.FoPlay id]) ++ o1').
+  { rewrite Hout in Hout2. cbn [app] in Hout2. injection Hout2 as Hout2.
+    destruct (exists_last (l := o1)) as (o1' & last & ->).
+    { intro E. subst o1. rewrite app_nil_r in Hout2.
+      replace (ob ++ [RF.FoJoin GF.KRtsp id; RF.FoPlay id]) with ((ob ++ [RF.FoJoin GF.KRtsp id]) ++ [RF.FoPlay id]) in Hout2
+        by (rewrite <- app_assoc; reflexivity).
+      apply app_inj_tail in Hout2. destruct Hout2 as [_ Hl]. discriminate. }
+    exists o1'. rewrite app_assoc in Hout2. apply app_inj_tail in Hout2. destruct Hout2 as [-> ->]. split; reflexivity. }
+  destruct Hsplit as (o1' & Ho1 & Hmid).
+  assert (Hob : RFP.no_in_out ob).
+  { unfold RFP.no_in_out in *. rewrite Hmid in Hnin. apply Forall_app in Hnin. destruct Hnin as [A _]. apply Forall_app in A. exact (proj1 A). }
+  destruct (RFP.rtsp_join_items_open cf ob id Hob Hnew Hsdp o1 Hw) as (c' & Hf & _ & Hitems).
+  rewrite <- Hout in Hf, Hitems. exists c'. split; [exact Hf|]. split; [exact Hitems|].
+  rewrite <- Hr, Hmid, Ho1. rewrite !RFR.fo_rtps_app. unfold RFR.fo_rtps at 2 4. cbn [flat_map app]. rewrite !app_nil_r. eexists. reflexivity.
+Qed.
+Print Assumptions c06_rtsp_any_join.
+
+(* ... and with OutWaitKeyFrameFlag once the group knows a video codec: nothing
+   during [q] - no packet of it passes lal's GOP-start test (C13's model of
+   IsAvcBoundary / IsHevcBoundary, on packets of the video track) -, then the
+   first packet that does, [p], and every packet after it: again a tail of the
+   remuxer's packet stream, beginning at a packet that starts a GOP. *)
+Theorem c06_rtsp_any_join_gate : forall b64 hex tool hc hls evs g' outs cf ob id q a p pt o2,
+  RF.fan_outs b64 hex tool hc true hls evs = (g', outs) -> Forall msg_ok (RFR.fev_msgs evs) ->
+  let pre := RF.FoIn true :: ob ++ [RF.FoJoin GF.KRtsp id; RF.FoPlay id] in
+  outs = pre ++ q ++ RF.FoRtp a p :: o2 ->
+  existsb (fun x => GF.c_id x =? id) (GF.g_subs (GF.run cf (RF.fan_hist (RF.FoIn true :: ob)))) = false ->
+  GF.g_sdp (GF.run cf (RF.fan_hist (RF.FoIn true :: ob))) <> None ->
+  GF.cf_rtsp_wait cf = true -> GF.g_video_known (GF.run cf (RF.fan_hist (RF.FoIn true :: ob))) = true ->
+  GR.quiet cf (GF.run cf (RF.fan_hist pre)) (RF.fan_hist q) ->
+  GF.rtp_pt (RF.fan_raw a p) = Some pt -> GR.rtp_boundary_at (GF.run cf (RF.fan_hist (pre ++ q))) (RF.fan_raw a p) = true ->
+  exists c', GP.find_sub (GF.run cf (RF.fan_hist outs)) id = Some c' /\ GR.rtsp_admitted cf c' = true /\
+    RF.fo_items outs (GF.c_out c') = RFP.sdp_in_force ob ++ RFP.rtp_items (RF.FoRtp a p :: o2)
+    /\ exists before, RFR.rout_rtps (run_rtsp b64 hex tool (RFR.fev_rins evs)) = before ++ (a, p) :: RFR.fo_rtps o2.
+Proof.
+  intros b64 hex tool hc hls evs g' outs cf ob id q a p pt o2 Hrun Hm pre Hout Hnew Hsdp Hw Hvk Hq Hpt Hb.
+  destruct (RFR.fan_outs_run b64 hex tool hc true hls evs g' outs Hrun Hm) as (mid & x' & Hout2 & Hnin & _ & _ & Hr).
+  specialize (Hr eq_refl).
+  assert (Hsplit : exists o2', o2 = o2' ++ [RF.FoIn false] /\ mid = (ob ++ [RF.FoJoin GF.KRtsp id; RF.FoPlay id]) ++ q ++ RF.FoRtp a p :: o2').
+  { rewrite Hout in Hout2. unfold pre in Hout2. cbn [app] in Hout2. injection Hout2 as Hout2.
+    destruct (exists_last (l := o2)) as (o2' & last & ->).
+    { intro E. subst o2.
+      replace ((ob ++ [RF.FoJoin GF.KRtsp id; RF.FoPlay id]) ++ q ++ [RF.FoRtp a p])
+        with (((ob ++ [RF.FoJoin GF.KRtsp id; RF.FoPlay id]) ++ q) ++ [RF.FoRtp a p]) in Hout2 by (rewrite <- app_assoc; reflexivity).
+      apply app_inj_tail in Hout2. destruct Hout2 as [_ Hl]. discriminate. }
+    exists o2'.
+    assert (E : (ob ++ [RF.FoJoin GF.KRtsp id; RF.FoPlay id]) ++ q ++ RF.FoRtp a p :: o2' ++ [last]
+                = ((ob ++ [RF.FoJoin GF.KRtsp id; RF.FoPlay id]) ++ q ++ RF.FoRtp a p :: o2') ++ [last]).
+    { symmetry. rewrite <- app_assoc. f_equal. rewrite <- app_assoc. reflexivity. }
+    rewrite E in Hout2. apply app_inj_tail in Hout2. destruct Hout2 as [-> ->]. split; reflexivity. }
+  destruct Hsplit as (o2' & Ho2 & Hmid).
+  assert (Hob : RFP.no_in_out ob).
+  { unfold RFP.no_in_out in *. rewrite Hmid in Hnin. apply Forall_app in Hnin. destruct Hnin as [A _]. apply Forall_app in A. exact (proj1 A). }
+  destruct (RFP.rtsp_join_items_gate cf ob id Hob Hnew Hsdp q a p pt o2 Hw Hvk Hq Hpt Hb) as (c' & Hf & Ha & Hitems).
+  cbv zeta in Hf, Hitems. fold pre in Hf, Hitems. rewrite <- Hout in Hf, Hitems.
+  exists c'. split; [exact Hf|]. split; [exact Ha|]. split; [exact Hitems|].
+  rewrite <- Hr, Hmid, Ho2.
+  replace (RF.FoRtp a p :: o2') with ([RF.FoRtp a p] ++ o2') by reflexivity. rewrite !RFR.fo_rtps_app.
+  change (RFR.fo_rtps [RF.FoRtp a p]) with [(a, p)]. change (RFR.fo_rtps [RF.FoIn false]) with (@nil (bool * rtp_packet)).
+  rewrite !app_nil_r. cbn [app].
+  exists ((RFR.fo_rtps ob ++ RFR.fo_rtps [RF.FoJoin GF.KRtsp id; RF.FoPlay id]) ++ RFR.fo_rtps q). rewrite <- !app_assoc. reflexivity.
+Qed.
+Print Assumptions c06_rtsp_any_join_gate.
+
+(* the GOP-start test looks at packets of the VIDEO track only (lal fix 871e5a0; the same defect as C02's F-34,
+   found independently when c06.e2e started to run with OutWaitKeyFrameFlag): on the pinned tree
+   ([rtp_is_boundary false], [run_pinned] of Group/GroupFanout.v) an Opus packet whose first payload byte reads as an
+   IRAP slice header (0xae = H.265 type 23) ended the wait, and the player was sent the video from the middle of a GOP *)
+Definition opus_like_irap : bytes := [128; 97; 0; 1; 0; 0; 3; 192; 0; 0; 0; 0; 174; 1; 2].
+Definition hevc_non_irap : bytes := [128; 96; 0; 2; 0; 0; 46; 224; 17; 34; 51; 68; 2; 1; 208; 9].
+Definition hevc_vsh_msg : rmsg := mk_rmsg 9 0 [28; 0; 0; 0; 0; 1].
+Theorem c06_rtsp_wait_audio_pinned_refuted :
+  GF.rtp_pt opus_like_irap = Some 97 /\ GF.rtp_is_video 97 = false /\
+  GF.rtp_is_boundary false GF.VHevc 97 opus_like_irap = true /\ GF.rtp_is_boundary true GF.VHevc 97 opus_like_irap = false /\
+  (forall v raw, GF.rtp_is_boundary true v 96 raw = GF.rtp_is_boundary false v 96 raw) /\
+  let cf := RF.fan_cfg 0 true in
+  let h := [GF.EvInStart; GF.EvPublish hevc_vsh_msg; GF.EvSdp GF.VHevc; GF.EvJoin GF.KRtsp 1; GF.EvPlay 1;
+            GF.EvRtp opus_like_irap; GF.EvRtp hevc_non_irap] in
+  option_map GF.c_out (GP.find_sub (GF.run_pinned cf h) 1) = Some [GF.LSdp 0; GF.LRtp 0; GF.LRtp 1] /\
+  option_map GF.c_out (GP.find_sub (GF.run cf h) 1) = Some [GF.LSdp 0].
+Proof.
+  split; [vm_compute; reflexivity|]. split; [reflexivity|]. split; [vm_compute; reflexivity|]. split; [vm_compute; reflexivity|].
+  split; [intros v raw; destruct v; reflexivity|]. vm_compute. split; reflexivity.
+Qed.
+Print Assumptions c06_rtsp_wait_audio_pinned_refuted.
+
+(* non-vacuity of (7): sequence headers, a key frame, audio, an inter frame; then an
+   HTTP-TS subscriber (GOP cache of 1) and an RTSP player (OutWaitKeyFrameFlag)
+   join; audio, a key frame, an inter frame follow.  The HTTP-TS subscriber is
+   sent PAT/PMT, the cached GOP (two frames) and the three frames
+   that follow; the RTSP player the SDP and the video packets from the next key
+   frame on - the AAC packet in between is withheld. *)
+Definition ex_hc : HlsMuxer.cfg := {| c_stream := [115]; c_ms := 1000%Z; c_num := 6%Z; c_thr := 6%Z; c_mode := 0%Z |}.
+Definition ex_k2 : rmsg := mk_rmsg 9 1080 [23;1;0;0;0; 0;0;0;3; 101;136;129].
+Definition ex_p1 : rmsg := mk_rmsg 9 1040 [39;1;0;0;0; 0;0;0;3; 65;154;2].
+Definition ex_p2 : rmsg := mk_rmsg 9 1120 [39;1;0;0;0; 0;0;0;3; 65;154;3].
+Definition ex_join_evs : list RF.fevent :=
+  [RF.FMsg f23_vsh; RF.FMsg f23_ash; RF.FMsg ex_key; RF.FMsg ex_a1; RF.FMsg ex_p1; RF.FJoinTs 1; RF.FJoinRtsp 2;
+   RF.FMsg ex_a2; RF.FMsg ex_k2; RF.FMsg ex_p2].
+Definition item_kind (i : RF.fitem) : N :=
+  match i with RF.ITs _ => 3 | RF.IPat _ => 2 | RF.ISdp _ => 4 | RF.IRtp a _ => 50 + (if a then 1 else 0) | RF.INone => 9 end.
+Example c06_join_nonvacuous :
+  let outs := snd (RF.fan_outs (fun x => x) (fun x => x) [108] ex_hc true false ex_join_evs) in
+  map (fun x => (fst x, map item_kind (snd x))) (RF.fan_consumers (RF.fan_cfg 1 true) outs)
+  = [(1, GF.KTs, [2; 3; 3; 3; 3; 3]); (2, GF.KRtsp, [4; 50; 50])]
+  /\ map te_boundary (RFP.fo_ts_evs outs) = [true; false; true; false; false].
+Proof. vm_compute. split; reflexivity. Qed.
+
+(* ======================================================================== *)
+(* (8) HLS AT EVERY INSTANT, under the group's wiring (hls.Muxer as observer of
+   the remuxer, FlushAudio re-entering it from inside openFragment).  The file
+   system operations of hls.Muxer over ANY sequence of events form a chain of
+   C10's invariant from Muxer.Start on (RemuxHlsObsProofs / RemuxHlsRunProofs:
+   the observer version is closeFragment / openFragment / FeedMpegts / the
+   duration update / the write of C10 composed, so C10's step lemmas compose),
+   hence C10's trace theorems hold of every prefix of them - not of the final
+   state only; since any prefix of the events is itself a sequence of events,
+   c06_hls_group holds after every event as well. *)
+From Lal Require Hls.HlsInv Hls.HlsParse Hls.HlsFs Hls.HlsRunProofs Remux.RemuxHlsRunProofs.
+Module RHR := Lal.Remux.RemuxHlsRunProofs.
+
+(* C10's trace theorems at EVERY instant (one statement, three clauses; j, k count file system operations):
+   - c10_inv_every_prefix: after every operation the live play list (if there is one) is the text of a structured
+     play list that parses back to it, lists only segments whose files exist, are closed, are whole TS packets and
+     begin with PAT/PMT, with durations that round to at most the target duration;
+   - c10_parsed_playlist_consistent: the same in terms of the parse result alone;
+   - c10_media_sequence_monotone: between any two instants EXT-X-MEDIA-SEQUENCE does not decrease. *)
+Theorem c06_hls_c10_every_instant : forall c evs x g outs,
+  HlsInv.cfg_ok c -> g_run c remuxer_init (g_init c true) evs = (x, g, outs) -> Forall msg_ok (RHR.gmsgs evs) ->
+  exists h, g_hls g = Some h /\
+    let st k := HlsFs.apply_all [] (firstn k (h_ops h)) in
+    (forall k, live_ok c (st k)) /\
+    (forall k f t, HlsFs.fs_lookup HlsFs.PLive (st k) = Some f -> HlsParse.parse_live (HlsFs.fdata f) = Some t ->
+       forall ts, In ts (HlsParse.t_segs t) ->
+         ((HlsParse.t_ms ts + 500) / 1000 <= HlsParse.t_target t)%Z /\
+         exists sg, HlsParse.t_uri ts = HlsPlaylist.seg_name (c_stream c) sg /\ seg_file_ok (st k) sg) /\
+    (forall j k fj fk tj tk, (j <= k)%nat ->
+       HlsRunProofs.no_removeall (skipn j (firstn k (h_ops h))) ->
+       HlsFs.fs_lookup HlsFs.PLive (st j) = Some fj -> HlsFs.fs_lookup HlsFs.PLive (st k) = Some fk ->
+       HlsParse.parse_live (HlsFs.fdata fj) = Some tj -> HlsParse.parse_live (HlsFs.fdata fk) = Some tk ->
+       (HlsParse.t_seq tj <= HlsParse.t_seq tk)%Z).
+Proof.
+  intros c evs x g outs Hc H Hm. destruct (RHR.group_hls_chain c Hc evs x g outs H Hm) as (h & Hh & Hch).
+  exists h. split; [exact Hh|]. cbv zeta. split; [|split].
+  - exact (RHR.chain_live_ok c (h_ops h) (h_mux h) Hc Hch).
+  - intros k f t. exact (RHR.chain_parsed c (h_ops h) (h_mux h) Hc Hch k f t).
+  - intros j k fj fk tj tk Hjk HN. exact (RHR.chain_media_sequence c (h_ops h) (h_mux h) Hc Hch j k fj fk tj tk Hjk HN).
+Qed.
+Print Assumptions c06_hls_c10_every_instant.
+
+(* ... and c06_hls_group after every event: the frame data written to the segment files so far are, callback by
+   callback from the first boundary frame on, the handed-over audio frames followed by the frame itself *)
+Theorem c06_hls_no_loss_every_instant : forall c evs x g outs,
+  g_run c remuxer_init (g_init c true) evs = (x, g, outs) ->
+  exists h, g_hls g = Some h /\ fst (fws false (h_ops h)) = written false (parse_cbs [] outs).
+Proof.
+  intros c evs x g outs H.
+  assert (Hi0 : hinv (g_init c true) [] false) by (eexists; split; [reflexivity|]; split; reflexivity).
+  destruct (g_run_hinv c evs _ _ _ _ _ _ _ Hi0 H) as (cbs & -> & F & (h & Hh & Hw & _)).
+  exists h. split; [exact Hh|]. rewrite Hw. cbn [fst app]. now rewrite parse_cb_outs.
+Qed.
+Print Assumptions c06_hls_no_loss_every_instant.
+
+(* ======================================================================== *)
+(* (9) THE WHOLE STREAM IN ONE FORMULA PER TRACK.  For a publication - any
+   messages with byte-string payloads, ANY observer, FlushAudio calls anywhere,
+   Dispose at the end, the probe filter drained - C09's reference demultiplexer
+   applied to all packets of the run returns
+     VIDEO  the frames [track_frames] makes of the video walk over the published
+            messages ([video_walk], NAL-unit level: one frame per NAL-unit
+            message with a non-empty plan, its buffer the rendering of the plan
+            c06_video_nals describes, parameter sets from the last sequence
+            header / in-band set), and
+     AUDIO  the frames [track_frames] makes of a partition of the published AAC
+            frames into PES packets ([aac_walk]; which partition depends on when
+            the observer asked for FlushAudio - every frame is in exactly one
+            group, in order),
+   each as the access unit [expected_units] spells out: PID, stream id, PTS / DTS
+   = 90 * (time stamp [+ composition offset]) rebased on the first frame of the
+   track on the 33-bit clock, + 63000, random-access mark = key flag, payload
+   byte for byte, continuous counters. *)
+From Lal Require Remux.RemuxVideoWalkProofs Remux.RemuxVideoRunProofs Remux.RemuxWholeStreamProofs.
+Module RVW := Lal.Remux.RemuxVideoWalkProofs.
+Module RWS := Lal.Remux.RemuxWholeStreamProofs.
+
+Theorem c06_ts_whole_stream : forall O (dec : O -> tsev -> bool) (app : O -> tsev -> list tsev -> O) (pp : O -> bytes -> O)
+    acts o x' o' outs,
+  run_actions O dec app pp remuxer_init o (acts ++ [ADispose]) = (x', o', outs) ->
+  fq_done (x_filter x') = true ->
+  Forall (fun m => bytes_ok (rm_payload m)) (msgs_of acts) -> Forall aac_only (msgs_of acts) ->
+  Forall (fun e => te_dts0 e <> max_u64) (ts_events outs) ->
+  demux_pid pid_video (ev_packets (ts_events outs))
+  = Some (expected_units 0 (RWS.track_frames false (snd (RVW.video_walk (msgs_of acts)))))
+  /\ exists groups,
+       snd (aac_walk (msgs_of acts)) = concat groups /\ Forall (fun g => g <> []) groups
+       /\ demux_pid pid_audio (ev_packets (ts_events outs))
+          = Some (expected_units 0 (RWS.track_frames true (map RWS.group_view groups))).
+Proof.
+  intros O dec app pp acts o x' o' outs H Hd Hm Ha Hmax.
+  assert (Hmsgs : msgs_of (acts ++ [ADispose]) = msgs_of acts) by (rewrite msgs_of_app; cbn; now rewrite app_nil_r).
+  assert (Hm' : Forall (fun m => bytes_ok (rm_payload m)) (msgs_of (acts ++ [ADispose]))) by now rewrite Hmsgs.
+  pose proof (c06_ts_stream O dec app pp _ o x' o' outs false H Hm') as Hv.
+  pose proof (c06_ts_stream O dec app pp _ o x' o' outs true H Hm') as Hau.
+  destruct (run_invariant O dec app pp _ o x' o' outs H) as (Hch & _ & _).
+  assert (Hmaxt : forall audio, Forall (fun e => te_dts0 e <> max_u64) (track_evs audio (ts_events outs))).
+  { intro audio. unfold track_evs. rewrite Forall_forall in *. intros e He. apply filter_In in He. apply Hmax, He. }
+  split.
+  - rewrite Hv. f_equal.
+    rewrite (RWS.expected_units_ext _ _ 0 (RWS.track_frames_of_evs _ _ false Hch (Hmaxt false))). f_equal. f_equal.
+    pose proof (RemuxVideoRunProofs.run_video_walk O dec app pp _ o x' o' outs H) as Hw.
+    unfold popped in Hw. rewrite Hd, Hmsgs in Hw. exact Hw.
+  - destruct (run_audio_complete O dec app pp acts o x' o' outs H Hd Ha) as (groups & G1 & G2 & G3 & G4).
+    exists groups. split; [exact G1|]. split; [exact G4|].
+    rewrite Hau. f_equal.
+    rewrite (RWS.expected_units_ext _ _ 0 (RWS.track_frames_of_evs _ _ true Hch (Hmaxt true))). f_equal. f_equal.
+    destruct Hch as (_ & _ & Hids). exact (RWS.audio_views _ groups Hids G2 G3).
+Qed.
+Print Assumptions c06_ts_whole_stream.
+
+(* non-vacuity of (9): the stream of c06_nonvacuous - the walk yields one video frame (AUD, SPS, PPS, IDR;
+   DTS0 = 90000, offset 40 ms, key) and the audio partition one PES of two frames *)
+Example c06_whole_stream_nonvacuous :
+  let ms := [f23_vsh; f23_ash; ex_key; ex_a1; ex_a2] in
+  (exists v, snd (RVW.video_walk ms) = [v]
+     /\ iterate_nalu_annexb (RVW.vv_raw v) = ([[9; 240]; [103; 100; 0; 31]; [104; 238]; [101; 136; 128]], None)
+     /\ RVW.vv_dts0 v = 90000 /\ RVW.vv_cts v = 40 /\ RVW.vv_key v = true
+     /\ f_dts (RWS.track_frame false 90000 v) = 0 /\ f_pts (RWS.track_frame false 90000 v) = 3600)
+  /\ length (snd (aac_walk ms)) = 2%nat.
+Proof. cbv zeta. split; [eexists; split; [vm_compute; reflexivity|repeat split; vm_compute; reflexivity]|vm_compute; reflexivity]. Qed.
